@@ -107,51 +107,42 @@ def r2_print_parse(ctx):
     pat, flags, node = _rec_path(ctx)
     rx = None
     fn = ctx.func('path', 'X12Path.format_refdes')
-    # collect the printing steps in source order: (guard path, format expression)
-    steps = []
-    for n in ast.walk(fn):
-        if isinstance(n, ast.AugAssign) and path_of(n.target) == 'ret' and isinstance(n.op, ast.Add):
-            g = A.enclosing(n, (ast.If,))
-            steps.append((n.lineno, path_of(g.test) if g is not None else None, n.value))
-    steps.sort(key=lambda x: x[0])
-    order = [s[1] for s in steps]
-    ok = order == ['self.seg_id', 'self.id_val', 'self.ele_idx', 'self.subele_idx']
-    yield Ob('path:X12Path.format_refdes prints parts in the order the regex reads them', ok, ctx.floc(fn), '' if ok else 'order %s' % order)
-    if not ok:
-        return
-    # nesting: id_val only under seg_id, subele only under ele_idx
-    def under(inner, outer):
-        for n in ast.walk(fn):
-            if isinstance(n, ast.If) and path_of(n.test) == outer:
-                return any(isinstance(x, ast.If) and path_of(x.test) == inner for x in ast.walk(ast.Module(body=n.body, type_ignores=[])))
-        return False
-    ok = under('self.id_val', 'self.seg_id') and under('self.subele_idx', 'self.ele_idx')
-    yield Ob('path:X12Path.format_refdes qualifier needs a segment id, component needs an element index', ok, ctx.floc(fn),
-             '' if ok else 'nesting of the printing guards changed')
-    # finite evaluation: print every combination and parse it back with the reference grammar
+    # the text printed for every combination of parts, by constant propagation through the function, is parsed back
+    # with the reference grammar (whatever the order and nesting of the printing statements)
+    from ..absint import explore
+    g = ctx.cfg(fn)
     import re as _re
     ref = _re.compile('^(?P<seg_id>[A-Z][A-Z0-9]{1,2})?(\\[(?P<id_val>[A-Z0-9]+)\\])?(?P<ele_idx>[0-9]{2})?(-(?P<subele_idx>[0-9]+))?$')
+
+    def printed(seg, idv, ele, sub):
+        env = {'self.seg_id': seg, 'self.id_val': idv, 'self.ele_idx': ele, 'self.subele_idx': sub}
+        outs = []
+
+        def on_node(nd, e):
+            if nd.kind == 'return' and nd.ast.value is not None:
+                try:
+                    outs.append(A.ev(nd.ast.value, e))
+                except A.NotClosed as ex:
+                    raise AnalysisError('format_refdes: returned expression not closed: %s' % ex)
+
+        def unk(nd, e):
+            raise AnalysisError('format_refdes: test not closed: %s' % norm(nd.ast))
+        explore(g, env, on_node=on_node, on_unknown=unk)
+        if len(set(outs)) != 1:
+            raise AnalysisError('format_refdes: %d results for one combination of parts' % len(set(outs)))
+        return outs[0]
     bad = []
+    nest = []
     n = 0
     for seg, idv, ele, sub in itertools.product((None, 'NM1', 'N4'), (None, '1W', 'A'), (None, 1, 9, 10, 99), (None, 1, 2, 12)):
-        if idv is not None and seg is None:
-            continue
-        if sub is not None and ele is None:
-            continue
-        env = {'self.seg_id': seg, 'self.id_val': idv, 'self.ele_idx': ele, 'self.subele_idx': sub}
-        out = ''
-        try:
-            for ln, guard, expr in steps:
-                if env[guard]:
-                    # honour nesting
-                    if guard == 'self.id_val' and not seg:
-                        continue
-                    if guard == 'self.subele_idx' and not ele:
-                        continue
-                    out += A.ev(expr, env)
-        except A.NotClosed as e:
-            raise AnalysisError('format_refdes: printing expression not closed: %s' % e)
+        out = printed(seg, idv, ele, sub)
         n += 1
+        if (idv is not None and seg is None) or (sub is not None and ele is None):
+            # a qualifier needs a segment id, a component needs an element index: the orphan part is not printed
+            want = printed(seg, idv if seg is not None else None, ele, sub if ele is not None else None)
+            if out != want:
+                nest.append('%s prints %r' % ((seg, idv, ele, sub), out))
+            continue
         m = ref.match(out)
         back = None
         if m:
@@ -159,6 +150,9 @@ def r2_print_parse(ctx):
                     int(m.group('subele_idx')) if m.group('subele_idx') else None)
         if back != (seg, idv, ele, sub):
             bad.append('%s prints %r which parses as %s' % ((seg, idv, ele, sub), out, back))
+    yield Ob('path:X12Path.format_refdes prints parts in the order the regex reads them', not bad, ctx.floc(fn), '' if not bad else bad[0])
+    yield Ob('path:X12Path.format_refdes qualifier needs a segment id, component needs an element index', not nest, ctx.floc(fn),
+             '' if not nest else nest[0])
     yield Ob('path:X12Path.format_refdes print/parse agreement over the part domain', not bad, ctx.floc(fn),
              '' if not bad else bad[0], detail={'evaluated': n, 'counterexamples': bad[:5]})
     # __repr__ / __init__ slash agreement
@@ -167,12 +161,45 @@ def r2_print_parse(ctx):
     ok = len(splits) == 2
     yield Ob('path:X12Path.__init__ splits on "/"', ok, ctx.floc(init), '' if ok else '%d split calls' % len(splits))
     rp = ctx.func('path', 'X12Path.__repr__')
-    joins = [c for c in A.calls_in(rp) if A.call_target(c)[1] == 'join' and A.const(c.func.value) == '/']
-    ok = len(joins) == 1 and path_of(joins[0].args[0]) == 'self.loop_list'
-    yield Ob('path:X12Path.__repr__ joins the loops with "/"', ok, ctx.floc(rp), '' if ok else 'join changed')
-    lead = [n for n in ast.walk(rp) if isinstance(n, ast.If) and norm(n.test) == 'not self.relative']
-    ok = len(lead) == 1 and any(isinstance(s, ast.AugAssign) and A.const(s.value) == '/' for s in lead[0].body)
-    yield Ob('path:X12Path.__repr__ leading "/" iff absolute', ok, ctx.floc(rp), '' if ok else 'absolute marker changed')
+    # the text printed for (absolute?, loops, designator) - by constant propagation - is split again the way
+    # __init__ reads a path: leading "/" = absolute, items separated by "/", a trailing designator item
+    g_rp = ctx.cfg(rp)
+
+    def shown(rel, loops, seg, rd):
+        outs = []
+
+        def on_node(nd, e):
+            if nd.kind == 'return' and nd.ast.value is not None:
+                try:
+                    outs.append(A.ev(nd.ast.value, e, {'self.format_refdes': lambda: rd}))
+                except A.NotClosed as ex:
+                    raise AnalysisError('X12Path.__repr__: returned expression not closed: %s' % ex)
+
+        def unk(nd, e):
+            raise AnalysisError('X12Path.__repr__: test not closed: %s' % norm(nd.ast))
+        explore(g_rp, {'self.relative': rel, 'self.loop_list': loops, 'self.seg_id': seg, 'self.ele_idx': None if seg else (2 if rd else None)},
+                funcs={'self.format_refdes': lambda: rd}, on_node=on_node, on_unknown=unk)
+        if len(set(outs)) != 1:
+            raise AnalysisError('X12Path.__repr__: %d results for one path' % len(set(outs)))
+        return outs[0]
+    bad_abs, bad_loops = [], []
+    for rel, loops, (seg, rd) in itertools.product((True, False), ((), ('2000A',), ('2000A', '2300')), ((None, ''), ('NM1', 'NM1'), ('NM1', 'NM1[85]02'), (None, '02'))):
+        if seg is None and rd and loops:
+            continue      # refused by __init__
+        text = shown(rel, loops, seg, rd)
+        is_abs = text.startswith('/')
+        items = [x for x in (text[1:] if is_abs else text).split('/')]
+        back_rd = ''
+        if items and items[-1] == rd and rd:
+            back_rd = items.pop()
+        if items == ['']:
+            items = []
+        if is_abs != (not rel):
+            bad_abs.append('relative=%s loops=%s designator=%r prints %r' % (rel, list(loops), rd, text))
+        if tuple(items) != loops or back_rd != rd:
+            bad_loops.append('relative=%s loops=%s designator=%r prints %r' % (rel, list(loops), rd, text))
+    yield Ob('path:X12Path.__repr__ joins the loops with "/"', not bad_loops, ctx.floc(rp), '' if not bad_loops else bad_loops[0])
+    yield Ob('path:X12Path.__repr__ leading "/" iff absolute', not bad_abs, ctx.floc(rp), '' if not bad_abs else bad_abs[0])
     ok = any(c for c in A.calls_in(rp) if A.call_target(c) == ('self', 'format_refdes'))
     yield Ob('path:X12Path.__repr__ appends the designator', ok, ctx.floc(rp), '' if ok else 'format_refdes not used')
     ini_abs = [n for n in ast.walk(init) if isinstance(n, ast.If) and norm(n.test) == "path_str[0] == '/'"]
@@ -198,7 +225,9 @@ def r3_refusals(ctx):
         env = {'self.seg_id': seg, 'self.id_val': idv, 'self.ele_idx': ele, 'self.subele_idx': sub,
                'self.loop_list': tuple('L' * i for i in range(1, nl + 1))}
         try:
-            got = any(bool(A.ev(t, env)) for t, _, _ in raises)
+            got = any(bool(A.ev(t, env)) and all(bool(A.ev(pt, env)) == pol for pt, pol in A.path_condition(ifn, init)
+                                                 if A.free_paths(pt) <= set(env))
+                      for t, _, ifn in raises)
         except A.NotClosed as e:
             raise AnalysisError('X12Path.__init__: refusal condition not closed: %s' % e)
         want = (seg is None and idv is not None) or (seg is None and (ele is not None or sub is not None) and nl > 0)
